@@ -350,9 +350,20 @@ def r7_own_address(prog, run):
     if len(primary) != 2:
         raise AnalysisBroken('C11.R7: the members behind QXmppConfiguration::user() / domain() were not identified')
     touched = set()
-    for i, n in enumerate(jb.nodes):
-        if n['k'] == 'mem' and (n.get('f') or '').startswith('QXmppConfigurationPrivate::'):
-            touched.add(n['f'])
+    scope, work = [], [jb]
+    while work:                     # jidBare() and the helpers of the configuration classes it delegates to
+        g = work.pop()
+        if g.id in [x.id for x in scope] or len(scope) > 8:
+            continue
+        scope.append(g)
+        for _, c in g.calls():
+            for h in prog.callee_fns(g, c):
+                if h.entry is not None and (h.record or '') in ('QXmppConfiguration', 'QXmppConfigurationPrivate'):
+                    work.append(h)
+    for g in scope:
+        for i, n in enumerate(g.nodes):
+            if n['k'] == 'mem' and (n.get('f') or '').startswith('QXmppConfigurationPrivate::'):
+                touched.add(n['f'])
     if not touched:
         raise AnalysisBroken('C11.R7: QXmppConfiguration::jidBare reads no configuration member')
     sources = primary
